@@ -132,6 +132,37 @@ def check(an, rep, tier):
             rep.add('S-ret', q, 'q=3 cores for %s' % r.tag(),
                     'ok' if ok else 'violation', '' if ok else repr(rv))
     F.check_poly_pattern(prog, rep)
+    # --- every store into a 4-axis core of matrix_delta addresses the two
+    # inner axes with the same pair of digit vectors in the same order (the
+    # store of v into the last core is a sibling of the stores of 1)
+    fmd = prog.func('matrices.matrix_delta')
+    orders = []
+    for node in ast.walk(fmd.node):
+        if isinstance(node, ast.Assign) and \
+                isinstance(node.targets[0], ast.Subscript) and \
+                isinstance(node.targets[0].slice, ast.Tuple) and \
+                len(node.targets[0].slice.elts) == 4:
+            mid = node.targets[0].slice.elts[1:3]
+            roots = []
+            for m_ in mid:
+                r_ = m_
+                while isinstance(r_, ast.Subscript):
+                    r_ = r_.value
+                roots.append(r_.id if isinstance(r_, ast.Name) else None)
+            if None not in roots and roots[0] != roots[1]:
+                orders.append((tuple(roots), node))
+    if len(orders) >= 2:
+        ref = orders[0][0]
+        for o_, node in orders[1:]:
+            same_set = set(o_) == set(ref)
+            rep.add('T-pattern', 'matrices.matrix_delta', 'inner axes of the '
+                    'core stores are addressed alike (line %d)' % node.lineno,
+                    'ok' if o_ == ref else ('violation' if same_set
+                                            else 'unknown'),
+                    '' if o_ == ref else 'this store addresses the two inner '
+                    'axes as %s, the other stores as %s: the entry lands in '
+                    'the transposed slot of the core' % (o_, ref),
+                    line=node.lineno, file=fmd.module.path)
     # --- one-core rule for the QTT deltas
     for q in ('vectors.vector_delta', 'matrices.matrix_delta'):
         fn = prog.func(q)
